@@ -36,6 +36,7 @@ def shards(tier, seed):
 		                reps=5 if tier == 'quick' else 50, env={'OMP_NUM_THREADS': '16', 'OMP_WAIT_POLICY': 'active' if active else 'passive'}))
 	for i in range(2 if tier == 'quick' else 8):
 		out.append(dict(name=f'siglist-history-{i}', kind='slhist', sub=300 + i, nhist=15 if tier == 'quick' else 60, env={'OMP_NUM_THREADS': '4'}))
+	out.append(dict(name='two-threads', kind='twothreads', sub=700, rounds=6 if tier == 'quick' else 60, env={'OMP_NUM_THREADS': '4'}))
 	out.append(dict(name='asan-cfg', kind='cfg', sub=500, ncoll=3 if tier == 'quick' else 10, nconf=40 if tier == 'quick' else 120, reps=2, sanitizer='asan',
 	                env={'OMP_NUM_THREADS': '8'}))
 	out.append(dict(name='tsan-cfg', kind='tsan', sub=600, ncoll=3 if tier == 'quick' else 8, nconf=25 if tier == 'quick' else 80, sanitizer='tsan',
@@ -288,6 +289,8 @@ def run_shard(sh, ctx):
 		return run_tsan(sh, ctx, gm)
 	if sh['kind'] == 'slhist':
 		return run_siglist_history(sh, ctx, gm)
+	if sh['kind'] == 'twothreads':
+		return run_two_threads(sh, ctx, gm)
 
 	from gambit._cython.threads import omp_set_num_threads, omp_get_max_threads, get_thread_ids
 	rng = random.Random(f'C05-{ctx.seed}-{sh["sub"]}')
@@ -420,6 +423,49 @@ def run_siglist_history(sh, ctx, gm):
 		ctx.case(('slhist', sh['sub'], h, trace), nontrivial=True, sample=dict(history=trace) if h == 0 else None)
 
 
+def run_two_threads(sh, ctx, gm):
+	"""Two Python threads call the bulk functions at the same time on shared references (each with its own output): every cell of
+	both results must still be the pairwise value (the native kernel releases the GIL, so the calls really overlap)."""
+	import threading
+	from gambit.sigs.base import SignatureArray, SignatureList
+	from gambit._cython.threads import omp_set_num_threads
+	rng = random.Random(f'C05-2t-{ctx.seed}')
+	for rd in range(sh['rounds']):
+		coll = gen_collection(rng, rng.choice([40, 120]))
+		dt = rng.choice(['u2', 'u4', 'u8'])
+		arrs = [np.array(s, dtype=dt) for s in coll]
+		sa = SignatureArray(arrs, None, dtype=np.dtype(dt))
+		sl = SignatureList(list(arrs), None, dtype=np.dtype(dt))
+		qs = [np.array(rng.choice(coll), dtype=dt) for _ in range(4)]
+		exp = oracle_matrix(gm, qs, arrs)
+		omp_set_num_threads(rng.choice([1, 2, 4]))
+		results, errors = {}, []
+		barrier = threading.Barrier(2)
+
+		def work(tid, cont):
+			try:
+				barrier.wait(30)
+				out = []
+				for rep in range(6):
+					out.append(gm.jaccarddist_matrix(qs, cont, chunksize=rng.choice([None, 7, 50])) if (tid + rep) % 2 else np.stack([gm.jaccarddist_array(q, cont) for q in qs]))
+				results[tid] = out
+			except Exception as e:
+				errors.append(f'{type(e).__name__}: {e}')
+		ts = [threading.Thread(target=work, args=(0, sa)), threading.Thread(target=work, args=(1, sa if rd % 2 else sl))]
+		[t.start() for t in ts]; [t.join(600) for t in ts]
+		ctx.case(('2t', rd, len(coll), dt), nontrivial=True)
+		ctx.count('two_thread_rounds')
+		w = dict(n=len(coll), dtype=dt, round=rd)
+		if errors:
+			ctx.violation('raises-under-two-threads', f'bulk call raised when two threads used the library at once: {errors[0]}', w)
+			continue
+		for tid, outs in results.items():
+			for got in outs:
+				ctx.evals += 1
+				if not cmp_bits(ctx, got, exp, 'cell-bits', f'bulk call while another thread was computing (thread {tid})', w):
+					break
+
+
 def filter_tsan(logs):
 	"""DESIGN.md 2.4: a report counts only if both accesses have their innermost gambit frame inside an
 	._omp_fn. function and at least one of the two source lines is not a '#pragma omp' line."""
@@ -468,7 +514,7 @@ def finalize(merged, tier, seed, inconclusive):
 	for k in CONTAINERS:
 		if c.get(f'container:{k}', 0) == 0:
 			inconclusive.append(f'container never exercised: {k}')
-	for n in ['calls:array', 'calls:matrix', 'calls:pairwise', 'canary_checks', 'repetitions', 'index_kind:repeats', 'chunking:1', 'chunking:>n', 'pairwise:flat', 'pairwise:square', 'wide_queries_beyond_narrow_reference_range', 'siglist_history_steps', 'container:pylist-mixed']:
+	for n in ['calls:array', 'calls:matrix', 'calls:pairwise', 'canary_checks', 'repetitions', 'index_kind:repeats', 'chunking:1', 'chunking:>n', 'pairwise:flat', 'pairwise:square', 'wide_queries_beyond_narrow_reference_range', 'siglist_history_steps', 'container:pylist-mixed', 'two_thread_rounds']:
 		if c.get(n, 0) == 0:
 			inconclusive.append(f'class never observed: {n}')
 	tc = merged['sets'].get('thread_counts', set())
